@@ -450,3 +450,32 @@ Definition http_response (base : list (text * fval)) (hfs : list (text * ty)) (h
   let body := concat chunks in
   let h := dict_update base (flatten [46] hfs hinst) in
   (gen_http_headers (aset h CONTENT_LENGTH (FOne (str_idx (len body)))), body).
+
+(* ------------------------------------------------------------------ DateTime response headers *)
+(** spyne/protocol/http.py:_header_to_bytes for a DateTime member: the value is taken to UTC
+    (astimezone for an aware value, a naive value is read as UTC) and written as an RFC 7231
+    IMF-fixdate.  As a function of the INSTANT (whole seconds since 1970-01-01T00:00:00Z): *)
+Definition WEEKDAY : list text :=
+  [[77; 111; 110]; [84; 117; 101]; [87; 101; 100]; [84; 104; 117]; [70; 114; 105]; [83; 97; 116]; [83; 117; 110]].
+Definition MONTH : list text :=
+  [[119; 48; 48; 116]; [74; 97; 110]; [70; 101; 98]; [77; 97; 114]; [65; 112; 114]; [77; 97; 121]; [74; 117; 110];
+   [74; 117; 108]; [65; 117; 103]; [83; 101; 112]; [79; 99; 116]; [78; 111; 118]; [68; 101; 99]].
+(** proleptic Gregorian (year, month, day) of a day number (days since 1970-01-01) *)
+Definition civil_of_days (days : Z) : Z * Z * Z :=
+  let z := days + 719468 in
+  let era := z / 146097 in
+  let doe := z - era * 146097 in
+  let yoe := (doe - doe / 1460 + doe / 36524 - doe / 146096) / 365 in
+  let doy := doe - (365 * yoe + yoe / 4 - yoe / 100) in
+  let mp := (5 * doy + 2) / 153 in
+  let d := doy - (153 * mp + 2) / 5 + 1 in
+  let m := if mp <? 10 then mp + 3 else mp - 9 in
+  (yoe + era * 400 + (if m <=? 2 then 1 else 0), m, d).
+(** "%s, %02d %s %04d %02d:%02d:%02d GMT" *)
+Definition imf_fixdate (epoch : Z) : text :=
+  let days := epoch / 86400 in
+  let sod := epoch mod 86400 in
+  let '(y, m, d) := civil_of_days days in
+  nth (Z.to_nat ((days + 3) mod 7)) WEEKDAY [] ++ [44; 32] ++ zpad 2 d ++ [32] ++ nth (Z.to_nat m) MONTH [] ++ [32] ++
+  zpad 4 y ++ [32] ++ zpad 2 (sod / 3600) ++ [58] ++ zpad 2 (sod mod 3600 / 60) ++ [58] ++ zpad 2 (sod mod 60) ++
+  [32; 71; 77; 84].
